@@ -311,7 +311,7 @@ class HttpHeaderFieldValueExpectStaple(FieldsSemicolonSeparated):
     )
 
 
-class ContentSecurityPolicyDirectiveType(StringEnumParsable, enum.Enum):
+class ContentSecurityPolicyDirectiveType(StringEnumCaseInsensitiveParsable, enum.Enum):
     BASE_URI = FieldValueStringEnumParams(
         code='base-uri',
     )
@@ -1189,7 +1189,7 @@ class HttpHeaderFieldValueContentSecurityPolicy(ParsableBase, Serializable):
             'directives',
             separator=';',
             item_class=ContentSecurityPolicyDirectiveVariant,
-            separator_spaces=' ',
+            separator_spaces=' \t',
             skip_empty=True,
         )
 
